@@ -280,6 +280,8 @@ func c04More(c *Ctx) {
 	}
 	c04Constructors(c)
 	c04Gossip(c)
+	// the last commit of the next height is the one MakeCommit built (C02): a foreign precommit in it stalls the next height
+	makeCommitRules(c)
 	tickerBeforeReplay(c)
 	// a part set filled with a part that does not belong to its slot can never be completed
 	addPartRules(c)
